@@ -471,6 +471,7 @@ pub fn c06_def() -> HistProp {
                     moving_clock: true,
                     alphabet: Alpha::Mutate,
                     victim: false,
+                    front: Front::Raw,
                 };
                 let name = super::fsprops::mut_name(&o, "listing");
                 v.push((name, Box::new(move || mut_scenario(&o, "listing"))));
@@ -520,8 +521,10 @@ impl Oracle for Matrix {
     fn on_new_state(&self, sc: &Scenario, hist: &[Op], w: &World, out: &mut Vec<Violation>) {
         // every cell of the matrix, one per extra replay
         let mut cells: Vec<Op> = Vec::new();
-        let free_f = (0..NF).find(|&i| w.files[i].is_none());
-        let free_d = (0..ND).find(|&i| w.dirs[i].is_none());
+        // when a table is full the cells are still applied (they must be refused without any effect); the slot
+        // named in the operation is then irrelevant
+        let free_f = (0..NF).find(|&i| w.files[i].is_none()).or(Some(0));
+        let free_d = (0..ND).find(|&i| w.dirs[i].is_none()).or(Some(ND - 1));
         for d in 0..ND as u8 {
             if w.dirs[d as usize].is_none() {
                 continue;
@@ -560,7 +563,8 @@ impl Oracle for Matrix {
                             }
                         }
                     };
-                    let mut wa = sc.replay(&h2);
+                    let mut wa = sc.replay(hist);
+                    wa.apply(cell, false);
                     close_all(&mut wa);
                     let mut wb = sc.replay(hist);
                     close_all(&mut wb);
@@ -641,7 +645,15 @@ pub fn c07_def() -> HistProp {
                     Box::new(move || {
                         let img = scen::build(k.geom(), &Default::default());
                         let cfg = crate::engine::make_cfg(img, Front::Raw, false);
-                        let pre = vec![Op::OpenVol { v: 0 }, Op::OpenRoot { v: 0, d: 0 }, Op::OpenDir { p: 0, name: 5, d: 1 }, Op::OpenRoot { v: 0, d: 2 }];
+                        // two file slots are taken from the start so that the four-slot table fills up within the depth bound
+                        let pre = vec![
+                            Op::OpenVol { v: 0 },
+                            Op::OpenRoot { v: 0, d: 0 },
+                            Op::OpenDir { p: 0, name: 5, d: 1 },
+                            Op::OpenRoot { v: 0, d: 2 },
+                            Op::Open { d: 0, name: 3, mode: M_RO, f: 3 },
+                            Op::Open { d: 0, name: 26, mode: M_RO, f: 2 },
+                        ];
                         let mut a = Vec::new();
                         for f in 0..2u8 {
                             for (d, name) in [(0u8, 0u8), (0, 2), (1, 0), (2, 0)] {
